@@ -103,9 +103,11 @@ class ComplexStep(BaseGradientApproximator):
         ]
         perturbed_outputs = parallel_execution.execute(perturbed_inputs)
 
+        # Each perturbation has a single non-zero component,
+        # which is not on the diagonal when differentiating a subset of components.
         return [
             perturbed_outputs[perturbation_index].imag
-            / input_perturbations[perturbation_index, perturbation_index].imag
+            / input_perturbations[:, perturbation_index].imag.sum()
             for perturbation_index in range(n_perturbations)
         ]
 
@@ -123,9 +125,11 @@ class ComplexStep(BaseGradientApproximator):
                 input_values + input_perturbations[:, perturbation_index]
             )
             perturbated_output = self.f_pointer(perturbated_input, **kwargs)
+            # The perturbation has a single non-zero component,
+            # which is not on the diagonal when differentiating a subset of components.
             gradient.append(
                 perturbated_output.imag
-                / input_perturbations[perturbation_index, perturbation_index].imag
+                / input_perturbations[:, perturbation_index].imag.sum()
             )
 
         return gradient
